@@ -138,7 +138,7 @@ theorem mwp_ro {α : Type} {p : Prog α} {t : ChipTrack} (hc : ReadOnly kind (ne
     {Q : α → DriverState σ → ChipTrack → Prop} {E} {d : DriverState σ}
     (hq : ∀ a, Q a d t) (he : ∀ a, a.infra → E a d t) :
     mwp kind (needsFor reg tcxo) (M.call p : M σ α) Q E d t :=
-  mwp_call (wp_mono _ _ _ hc (fun a t' h => h ▸ hq a) (fun a t' h => h.1 ▸ he a h.2))
+  mwp_call (wp_mono _ _ _ hc (fun a _ h => h ▸ hq a) (fun a _ h => h.1 ▸ he a h.2))
 
 /-- the standard abnormal postcondition: the invariant holds, and a reported timeout means standby -/
 def AbI4 (reg tcxo : Bool) (sb : Items) (exempt : Prop) (a : Abort) (d : DriverState σ) (t : ChipTrack) : Prop :=
